@@ -18,8 +18,11 @@ def register(kind, target):
 
 def run(ctx, kind, payload, model):
     if kind not in KINDS:
-        for mod in ('contracts.relocate',):
-            importlib.import_module(mod)
+        for mod in ('contracts.relocate', 'contracts.replay_passes', 'contracts.emit', 'contracts.exprs'):
+            try:
+                importlib.import_module(mod)
+            except ImportError:
+                pass
     target = KINDS[kind]
     modname, fn = target.split(':')
     f = getattr(importlib.import_module(modname), fn)
